@@ -41,7 +41,10 @@ def one(args):
                 rep = Report(pid, 'quick', Repo(base))
                 pm.run(rep)
                 v = [(o.rule, o.key, o.detail[:200]) for o in rep.obligations if not o.ok and (pid, o.rule, o.key) not in kk]
-                res[pid] = ('viol', v) if v else ('ok', [])
+                if not v and rep.gaps:
+                    res[pid] = ('analysis-error', [('', '', '; '.join(rep.gaps)[:300])])
+                else:
+                    res[pid] = ('viol', v) if v else ('ok', [])
             except AnalysisError as e:
                 res[pid] = ('analysis-error', [('', '', str(e)[:300])])
             except Exception as e:
